@@ -1,5 +1,7 @@
 package balenum
 
+import "fmt"
+
 // Deterministic enumeration of balance inputs. A Block fixes everything but
 // the prior ownership / generations / count-map order, which Block.Each
 // sweeps exhaustively; blocks are what the checks hand to worker goroutines.
@@ -20,10 +22,17 @@ const (
 	// PriorConflict: nobody | one member | two conflicting members, all
 	// members on the current generation.
 	PriorConflict
+	// PriorCompleteSubscribed: every partition of a subscribed topic is
+	// owned by exactly one member subscribed to it (every valid complete
+	// conflict-free assignment, balanced or not -- this contains every
+	// "staircase" k, k+1, k+2, ... of loads), all on the current generation.
+	PriorCompleteSubscribed
+	// PriorPartialSubscribed: as above, or nobody.
+	PriorPartialSubscribed
 )
 
 func (m PriorMode) String() string {
-	return [...]string{"none", "single-current", "full", "conflict-current"}[m]
+	return [...]string{"none", "single-current", "full", "conflict-current", "complete-valid", "partial-valid"}[m]
 }
 
 type Block struct {
@@ -64,7 +73,31 @@ func ownerCodes(n int, mode PriorMode) [][]int {
 func (b *Block) Each(fn func(c *Case)) int64 {
 	c := &Case{N: b.N, Parts: b.Parts, Subs: b.Subs, MRack: b.MRack, PRack: b.PRack, Static: b.Static, Ghost: b.Ghost}
 	nf := c.NumFlat()
-	codes := ownerCodes(b.N, b.Prior)
+	// pcodes[f] = the owner sets flat partition f ranges over.
+	pcodes := make([][][]int, nf)
+	if b.Prior == PriorCompleteSubscribed || b.Prior == PriorPartialSubscribed {
+		for f := 0; f < nf; f++ {
+			t, _ := c.TP(f)
+			var l [][]int
+			if b.Prior == PriorPartialSubscribed {
+				l = append(l, []int{})
+			}
+			for i := 0; i < b.N; i++ {
+				if c.Subscribed(i, t) {
+					l = append(l, []int{i})
+				}
+			}
+			if len(l) == 0 {
+				l = [][]int{{}}
+			}
+			pcodes[f] = l
+		}
+	} else {
+		codes := ownerCodes(b.N, b.Prior)
+		for f := range pcodes {
+			pcodes[f] = codes
+		}
+	}
 	idx := make([]int, nf)
 	c.Owners = make([][]int, nf)
 	c.Gens = make([]int32, b.N)
@@ -85,7 +118,7 @@ func (b *Block) Each(fn func(c *Case)) int64 {
 			claims[0]++
 		}
 		for f := 0; f < nf; f++ {
-			c.Owners[f] = codes[idx[f]]
+			c.Owners[f] = pcodes[f][idx[f]]
 			for _, o := range c.Owners[f] {
 				claims[o]++
 			}
@@ -122,7 +155,7 @@ func (b *Block) Each(fn func(c *Case)) int64 {
 		f := 0
 		for ; f < nf; f++ {
 			idx[f]++
-			if idx[f] < len(codes) {
+			if idx[f] < len(pcodes[f]) {
 				break
 			}
 			idx[f] = 0
@@ -284,6 +317,95 @@ func StickyBlocks(b StickyBounds) []Block {
 					for _, pr := range PartitionRackings(parts, []string{"ra", "rb"}) {
 						out = append(out, Block{Sweep: "racks", N: n, Parts: parts, Subs: subs, MRack: mr, PRack: pr, Prior: PriorSingle, Orders: 1})
 					}
+				}
+			}
+		}
+	}
+	return out
+}
+
+// SortedPartConfigs lists the non-decreasing partition-count vectors of nt
+// topics with at most maxTotal partitions overall (topic symmetry reduction:
+// a permutation of the topics only renames them; the count-map insertion
+// order, which decides how the engine numbers them, is varied separately).
+func SortedPartConfigs(nt int, maxTotal int) [][]int32 {
+	var out [][]int32
+	var rec func(cur []int32, sum int)
+	rec = func(cur []int32, sum int) {
+		if len(cur) == nt {
+			out = append(out, append([]int32(nil), cur...))
+			return
+		}
+		lo := int32(1)
+		if len(cur) > 0 {
+			lo = cur[len(cur)-1]
+		}
+		for p := lo; sum+int(p)*(nt-len(cur)) <= maxTotal; p++ {
+			rec(append(cur, p), sum+int(p))
+		}
+	}
+	rec(nil, 0)
+	return out
+}
+
+// ComplexBounds bound the many-topic "complex path" sweep (members with
+// different subscriptions; multi-hop steal chains need >= 3 shared topics).
+type ComplexBounds struct {
+	Orders int
+	// Per entry: members, topics, max total partitions, prior modes.
+	Groups []ComplexGroup
+}
+
+type ComplexGroup struct {
+	Members, Topics, MaxTotal int
+	Priors                    []PriorMode
+}
+
+func ComplexTier(thorough bool) ComplexBounds {
+	if thorough {
+		return ComplexBounds{Orders: 0, Groups: []ComplexGroup{
+			{4, 3, 6, []PriorMode{PriorNone, PriorCompleteSubscribed}},
+			{4, 3, 5, []PriorMode{PriorPartialSubscribed}},
+			{4, 4, 6, []PriorMode{PriorNone, PriorCompleteSubscribed}},
+			{5, 3, 5, []PriorMode{PriorNone, PriorCompleteSubscribed}},
+		}}
+	}
+	return ComplexBounds{Orders: 0, Groups: []ComplexGroup{
+		{4, 3, 6, []PriorMode{PriorNone, PriorCompleteSubscribed}},
+	}}
+}
+
+func (b ComplexBounds) String() string {
+	s := ""
+	for i, g := range b.Groups {
+		if i > 0 {
+			s += "; "
+		}
+		s += fmt.Sprintf("%d members x %d topics (non-decreasing partition counts, total<=%d), every member on every non-empty topic subset, priors:", g.Members, g.Topics, g.MaxTotal)
+		for _, p := range g.Priors {
+			s += " " + p.String()
+		}
+	}
+	return s + "; count-map insertion order ascending/descending, alternating from input to input"
+}
+
+// ComplexBlocks is the complex-path input space: every subscription vector
+// (every member on every non-empty subset of the topics, no member symmetry
+// reduction because the engine breaks ties by member order) x partition-count
+// mixes such as {1,1,4} x prior ownership = nobody owns anything | every
+// valid complete assignment (which contains every staircase of loads k, k+1,
+// k+2, k+3 that a multi-hop steal chain has to climb).
+func ComplexBlocks(b ComplexBounds) []Block {
+	var out []Block
+	for _, g := range b.Groups {
+		for _, parts := range SortedPartConfigs(g.Topics, g.MaxTotal) {
+			for _, subs := range SubVectors(g.Members, g.Topics, false) {
+				for _, pm := range g.Priors {
+					o := b.Orders
+					if pm == PriorNone {
+						o = 2
+					}
+					out = append(out, Block{Sweep: "complex-" + pm.String(), N: g.Members, Parts: parts, Subs: subs, Prior: pm, Orders: o})
 				}
 			}
 		}
